@@ -3,7 +3,7 @@ import re
 from analysis.engine import rule, AnchorMissing
 from analysis import cfg
 from analysis.sym import sym, show_in, nosite, peel, core, walk, ret_values, args_of, guards_at, atoms_at, \
-    variant_facts_at, cmp_facts_at
+    variant_facts_at, cmp_facts_at, loop_source
 from analysis.pat import match, Call, Cap, ANY, Pred, Const, has, chain_names
 from rules.common import closure_of
 from rules import pipe
@@ -208,7 +208,7 @@ def r6(ctx):
     nx = [t for t in n.calls(r'::next$') if t.bb in lp.blocks]
     rng = None
     for t in nx:
-        for s in walk(sym(n, t.args[0])):
+        for s in walk(loop_source(n, t)):
             if isinstance(s, tuple) and s and s[0] == 'agg' and s[2].endswith('Range::Range'):
                 rng = s
     ok = rng is not None and match(rng[3][0], Const(0)) and match(core(rng[3][1]), ('arg', 3, ANY))
